@@ -28,7 +28,7 @@ NOT_ASSERTED = ['state of a builder after a refused composite store (the propert
 
 
 def BOUNDS(tier):
-    return {'fill_states': 5120, 'bfs_depth': 3 if tier == 'quick' else 4, 'widths': '1..257', 'read_remaining': '0..64,255,1022,1023', 'exhaustive': True}
+    return {'fill_states': 5120, 'bfs_depth': 3 if tier == 'quick' else 6, 'widths': '1..257', 'read_remaining': '0..64,255,1022,1023', 'exhaustive': True}
 
 
 def REQUIRED_COVER(tier):
@@ -562,7 +562,7 @@ def shards(tier, seed):
     out = []
     for lo in range(0, 1024, 32):
         out.append({'fn': 'shard_states', 'args': {'lo': lo, 'hi': lo + 31}, 'prio': 5})
-    depth = 3 if tier == 'quick' else 4
+    depth = 3 if tier == 'quick' else 6
     for first in range(len(BFS_OPS)):
         out.append({'fn': 'shard_bfs', 'args': {'first': first, 'depth': depth}})
     out.append({'fn': 'shard_ranges', 'args': {}})
